@@ -329,7 +329,67 @@ def k_random(run, case):
                      "classes": arr["cls"], "pairs_head": (pairs or [])[:5]})
 
 
-KINDS = {"grid": k_grid, "random": k_random, "gridsel": k_replay_grid}
+def k_reuse(run, case):
+    """the same pose list object queried, modified in place, queried again (list identity kept)"""
+    from evo.core import metrics
+    from evo.core.units import Unit
+    rng = run.rng(case)
+    n = int(rng.integers(3, 60))
+    arr = gen.traj_arrays(rng, n, stamp_cls="index")
+    poses = poses_from(arr["p"], arr["R"])
+    unit = "mrd"[rng.integers(3)]
+    all_pairs = bool(rng.random() < .4)
+    U = {"m": Unit.meters, "r": Unit.radians, "d": Unit.degrees}[unit]
+
+    def draw_delta(p, R):
+        if unit == "m":
+            return float(np.sum(np.linalg.norm(np.diff(p, axis=0), axis=1))) * 10.0**rng.uniform(-1.5, -0.3) + 1e-9
+        d = rng.uniform(0.05, 1.5)
+        return d * 180 / PI if unit == "d" else d
+
+    with core.quiet():
+        contracts.outcome_of(metrics.id_pairs_from_delta, poses, draw_delta(arr["p"], arr["R"]), U, 0.1, all_pairs)
+    # in-place edit of the very same list / matrices (as PosePath3D.project does)
+    arr2 = gen.traj_arrays(rng, n, stamp_cls="index")
+    for k in range(n):
+        if rng.random() < .7:
+            poses[k][:3, :3] = arr2["R"][k]
+            poses[k][:3, 3] = arr2["p"][k]
+    p_now = np.array([P[:3, 3] for P in poses])
+    R_now = np.array([P[:3, :3] for P in poses])
+    delta = draw_delta(p_now, R_now)
+    c = dict(case, unit=unit, delta=delta, all_pairs=all_pairs)
+    # judge the second query on the modified content (run_selection rebuilds its list: here the
+    # SAME list object must be used, so the selection is executed and judged directly)
+    from evo.core.filters import FilterException
+    with core.quiet():
+        out = contracts.outcome_of(metrics.id_pairs_from_delta, poses, delta, U, 0.1, all_pairs)
+    run.seen(c, core.digest(p_now, R_now, unit, delta, all_pairs, "reuse"), cls=["pose list re-used after in-place edit: " + unit],
+             sample={"n": n, "unit": unit, "delta": delta, "all_pairs": all_pairs})
+    pairs = [] if out[0] == "exc" else [(int(i), int(j)) for i, j in out[1]]
+    if out[0] == "exc" and not isinstance(out[1], FilterException):
+        run.check(False, "only FilterException", c, "raised %r" % (out[1], ), key="pairs:wrong-exception")
+        return
+    seg_len = np.linalg.norm(np.diff(p_now, axis=0), axis=1)
+    if not check_range(run, c, pairs, n, "re-used list"):
+        return
+    if unit == "m":
+        band = 1e-9 * (float(np.sum(seg_len)) + float(np.max(np.abs(p_now))) + 1e-300)
+        if all_pairs:
+            check_all_pairs_path(run, c, pairs, seg_len, delta, delta * 0.1, band)
+        else:
+            check_consecutive(run, c, pairs, seg_len, delta, band, "meters consecutive", "consec-path")
+    else:
+        d_rad = delta * PI / 180 if unit == "d" else delta
+        if all_pairs:
+            check_all_pairs_angle(run, c, pairs, R_now, d_rad, d_rad * 0.1)
+        else:
+            seg_ang = [rm.rot_angle(R_now[k].T @ R_now[k + 1]) for k in range(n - 1)]
+            check_consecutive(run, c, pairs, seg_ang, d_rad, 1e-9, "angle consecutive", "consec-angle")
+    run.hit("selections on a re-used, in-place modified pose list judged")
+
+
+KINDS = {"grid": k_grid, "random": k_random, "gridsel": k_replay_grid, "reuse": k_reuse}
 
 
 def main(run):
@@ -347,6 +407,8 @@ def main(run):
     run.extra["grid_step_sequences_enumerated_exhaustively_up_to_n_poses"] = nmax_grid
     for i in run.mine({"quick": 500, "thorough": 12000}[run.tier]):
         k_random(run, run.case("random", i))
+    for i in run.mine({"quick": 300, "thorough": 6000}[run.tier]):
+        k_reuse(run, run.case("reuse", i))
     if run.tier == "thorough":
         for i in run.mine(48):
             k_random(run, run.case("random", 10**6 + i, big=True))
@@ -358,4 +420,5 @@ def main(run):
              "all-pairs path: start without admissible end is absent",
              "all-pairs angle: returned pair lies in the band",
              "all-pairs angle: absent pair lies outside the band",
-             "refusals (FilterException) observed", "empty selection raises FilterException")
+             "refusals (FilterException) observed", "empty selection raises FilterException",
+             "selections on a re-used, in-place modified pose list judged")
